@@ -1330,7 +1330,23 @@ func rulesStepsReversed(c *Ctx, r *Report) {
 			continue
 		}
 		found := false
-		for _, f := range c.stageFuncs(root) {
+		fs := c.stageFuncs(root)
+		// the reversal in a helper of the package that both tracebacks share: called with the collected steps
+		inFs := map[*ssa.Function]bool{}
+		for _, f := range fs {
+			inFs[f] = true
+		}
+		for _, f := range append([]*ssa.Function{}, fs...) {
+			for _, g := range c.calleesIn(f) {
+				if !inFs[g] && g.Pkg == root.Pkg && g.Blocks != nil && len(g.Params) == 1 && g.Signature.Results().Len() == 0 {
+					if _, isSl := g.Params[0].Type().Underlying().(*types.Slice); isSl {
+						inFs[g] = true
+						fs = append(fs, g)
+					}
+				}
+			}
+		}
+		for _, f := range fs {
 			if ok, desc, why := reversalIn(c, f); ok || why != "" {
 				found = true
 				n++
